@@ -17,11 +17,16 @@
 EXTENDS Naturals, Sequences, FiniteSets, TLC
 
 \* ---- value classes per declared type -----------------------------------------
-StringClasses == {"plain", "reserved", "unicode", "long", "slashes", "plus_space", "empty", "invalid_utf8"}
+\* "message_like": text that reads like a fragment of a deserialiser's error message ("missing field",
+\* "unknown variant `x`", "invalid type: ...").  A legal string; for every other type just one more
+\* value that does not parse -- the refusal must not depend on what the rejected text says (the
+\* extractors classify some failures by the wording of an error message that echoes the input).
+StringClasses == {"plain", "reserved", "unicode", "long", "slashes", "plus_space", "empty", "invalid_utf8",
+                  "message_like"}
 IntClasses == {"zero", "min", "max", "over", "under", "alpha", "float", "plus_sign",
-               "leading_space", "empty", "hex", "leading_zero"}
-BoolClasses == {"true", "false", "upper", "one", "yes", "empty"}
-EnumClasses == {"member", "other_member", "non_member", "wrong_case", "empty"}
+               "leading_space", "empty", "hex", "leading_zero", "message_like"}
+BoolClasses == {"true", "false", "upper", "one", "yes", "empty", "message_like"}
+EnumClasses == {"member", "other_member", "non_member", "wrong_case", "empty", "message_like"}
 OptClasses == {"absent", "present"}
 
 IntTypes == {"u8", "u32", "i64"}
